@@ -178,6 +178,9 @@ def render(spec, rnd=None, style='plain', semis=None):
     out.append(S())
     out.append('%{' + spec['prologue'] + '%}' + ('\n' if style != 'plain' and rnd.random() < 0.7 else ' ') + S())
     out.append('%union' + rnd.choice([' ', '  ', '\t', ' ']) + '{' + spec['union'] + '}' + S(True))
+    if spec.get('prologue2'):
+        # a second %{ %} block after the union: the blocks are carried into the output one after the other
+        out.append('%{' + spec['prologue2'] + '%}' + ('\n' if style != 'plain' and rnd.random() < 0.7 else ' ') + S())      # %} ends a block only before white space
     for d in spec['decls']:
         kind = d[0]
         if kind == 'start':
@@ -283,7 +286,7 @@ def denote(spec):
     if start not in toks:
         nts.setdefault(start, dict(tag=''))
     return dict(tokens=toks, nts=nts, prec=prec, rules=rules, start=start,
-                prologue=spec['prologue'], union=spec['union'], epilogue=spec['epilogue'] if spec['epilogue'] is not None else '')
+                prologue=spec['prologue'] + (spec.get('prologue2') or ''), union=spec['union'], epilogue=spec['epilogue'] if spec['epilogue'] is not None else '')
 
 
 def read_back(d):
